@@ -82,16 +82,25 @@ class RenderBody(Contract):
         info = c.alloc(DictObj(items={"group_by_columns": None, "group_values": top_gv, "header_text": lit("")}, fresh=False))
         attrs = c.alloc(RecObj("TableAttributes", {}, pyclass=c.cls("rtflite.attributes", "TableAttributes"), fresh=False))
         cw = c.fresh("col_widths", T.List(T.Real))
+        row_start = c.fresh("row_start", T.Int)
+        c.requires("row_start_nonneg", row_start >= 0)
+        # every field of the real PageContext is present (a body that starts reading another field must be judged by the clauses
+        # below, not by a missing attribute of the model)
         page = c.alloc(RecObj("PageContext", {"final_body_attrs": attrs, "table_attrs": None, "data": page_df, "col_widths": cw,
                                               "group_boundaries": bounds if c.variant != "no_boundaries" else None,
-                                              "pageby_header_info": info}, fresh=False))
+                                              "pageby_header_info": info, "row_start": row_start,
+                                              "page_number": c.fresh("page_number", T.Int), "total_pages": c.fresh("total_pages", T.Int),
+                                              "is_first_page": c.fresh("is_first_page", T.Bool), "is_last_page": c.fresh("is_last_page", T.Bool),
+                                              "needs_header": c.fresh("needs_header", T.Bool)}, fresh=False))
         newp = c.fresh("new_page", T.Bool)
         pbr = c.fresh("pageby_row", T.Str)
         body = c.alloc(RecObj("RTFBody", {"new_page": newp, "pageby_row": pbr,
                                           "page_by": c.alloc(ListObj(items=list(cols), fresh=False))}, pyclass=body_cls, fresh=False))
         doc_df = fresh_df(c.st, "doc_df")
+        col_width = c.fresh("col_width", T.Real)
+        c.requires("table_width_positive", col_width > 0)            # RTFPage validators + defaults (C19 carriers)
         doc = c.alloc(RecObj("RTFDocument", {"rtf_body": body, "df": doc_df,
-                                             "rtf_page": c.alloc(RecObj("RTFPage", {"col_width": c.fresh("col_width", T.Real)}, fresh=False))}, fresh=False))
+                                             "rtf_page": c.alloc(RecObj("RTFPage", {"col_width": col_width}, fresh=False))}, fresh=False))
         c.bind("document", doc)
         c.bind("page", page)
         # the page top already shows the headings of row 0 (render step 7): ghost heading state at entry
@@ -102,7 +111,7 @@ class RenderBody(Contract):
             c.ghost(f"H{l}", KEY[l](0))
             c.ghost(f"pos{l}", IntVal(-(M - l)))          # top-of-page headings were emitted outer to inner
         c.ghost("after_heading", z3.BoolVal(False))
-        c.v.update(M=M, cols=cols, KEY=KEY, PR=PR, nb=nb, n=n, d=d, attrs=attrs, spanning=Or(Not(newp), pbr != lit("column")), cw=cw)
+        c.v.update(M=M, cols=cols, KEY=KEY, PR=PR, nb=nb, n=n, d=d, attrs=attrs, spanning=Or(Not(newp), pbr != lit("column")), cw=cw, col_width=col_width)
 
     # ---- summaries: the two emitters; they maintain the ghost emission log and carry the obligations --------------------
     @property
@@ -165,7 +174,8 @@ class RenderBody(Contract):
                     g[f"stale{l2}"] = z3.BoolVal(True)
                 g[f"stale{lvl}"] = z3.BoolVal(False)
             g["after_heading"] = z3.BoolVal(True)
-            I.oblige(st, f"C08.spanning_row_width_is_col_width@L{site}", z3.BoolVal(True), "post", site)
+            pw = kwargs.get("page_width", args[1] if len(args) > 1 else None)
+            I.oblige(st, f"C08.spanning_row_width_is_col_width@L{site}", z3.BoolVal(False) if pw is None else to_z3(pw) == v["col_width"], "post", site)
             return st.alloc(ListObj(items=[HEADTOK(IntVal(lvl if lvl is not None else -1), v["KEY"][lvl or 0](st.ghost["__next_run_row__"]))], fresh=True))
         return {"TableAttributes._encode": encode_rows, "RTFEncodingService.encode_spanning_row": spanning_row}
 
